@@ -328,3 +328,49 @@ func VerifSyncShardsWalk() {
 		check(true)
 	}
 }
+
+// ---- C14(4): the entry point Sync(). A node whose list holds only itself has nothing to do; a node
+// that was removed (the list holds only the other server) hands over every record and every shard.
+func VerifSyncEntryPoint() {
+	rootA, rootB := "/a", "/b"
+	if !vsymbolic() {
+		d, err := os.MkdirTemp("", "verifsyncentry")
+		if err != nil {
+			panic(err)
+		}
+		defer os.RemoveAll(d)
+		rootA, rootB = d+"/a", d+"/b"
+	}
+	shrunk := nondetBool()
+	servers := []string{"A"} // alone
+	if shrunk {
+		servers = []string{"B"} // A has been removed and drains
+	}
+	a, b := syncNode("A", servers), syncNode("B", []string{"B"})
+	a.cfg.ShardManager.RootDir, b.cfg.ShardManager.RootDir = rootA, rootB
+	verifNodes = map[string]*ClusterNode{"A": a, "B": b}
+	defer func() { verifNodes, verifRouteFault = nil, nil }()
+	key, val := "u"+DBDELIMITER+"col", []byte{42}
+	a.nodedb.Write(func(bm diskstore.BucketManager) error {
+		bk, err := bm.Get(USERCOLSBUCKETKEY)
+		vassume(err == nil)
+		return bk.Put([]byte(key), val)
+	})
+	rel := "/" + USERCOLSDIR + "/u/col/shard1/sharddb.bbolt"
+	content := nondetBytes(nondetIntRange(1, 3))
+	vwritefile(rootA+rel, content)
+	err := a.Sync()
+	vcover("reached")
+	vassert("sync-succeeds", err == nil)
+	recA, recB := nodeRecords(a), nodeRecords(b)
+	src, srcOk := vreadfile(rootA + rel)
+	dst, dstOk := vreadfile(rootB + rel)
+	if shrunk {
+		_, onA := recA[key]
+		vassert("removed-node-hands-over-its-records", !onA && len(recB[key]) == 1 && recB[key][0] == 42)
+		vassert("removed-node-hands-over-its-shards", !srcOk && dstOk && sameBytes(dst, content))
+	} else {
+		vassert("single-node-keeps-its-records", len(recA[key]) == 1 && len(recB) == 0)
+		vassert("single-node-keeps-its-shards", srcOk && sameBytes(src, content) && !dstOk)
+	}
+}
